@@ -8,6 +8,7 @@ import typing as t
 from _string import formatter_field_name_split  # type: ignore
 from collections import abc
 from collections import deque
+from functools import partial
 from functools import update_wrapper
 from string import Formatter
 
@@ -181,13 +182,21 @@ def modifies_known_mutable(obj: t.Any, attr: str) -> bool:
     >>> modifies_known_mutable([], "index")
     False
 
+    The same answer is given for the type itself, whose attribute is the
+    unbound method.
+
+    >>> modifies_known_mutable(list, "append")
+    True
+
     If called with an unsupported object, ``False`` is returned.
 
     >>> modifies_known_mutable("foo", "upper")
     False
     """
     for typespec, unsafe in _mutable_spec:
-        if isinstance(obj, typespec):
+        if isinstance(obj, typespec) or (
+            isinstance(obj, type) and issubclass(obj, typespec)
+        ):
             return attr in unsafe
     return False
 
@@ -456,8 +465,15 @@ class ImmutableSandboxedEnvironment(SandboxedEnvironment):
         # A bound method that would modify a builtin mutable object is
         # refused wherever the reference came from, for example a
         # ``lst.append`` passed in the render data.
+        if isinstance(obj, partial):
+            return self.is_safe_callable(obj.func)
+
         if isinstance(obj, (types.MethodType, types.BuiltinMethodType)):
             return not modifies_known_mutable(obj.__self__, obj.__name__)
+
+        # The unbound method, ``list.append``, takes the object as argument.
+        if isinstance(obj, types.MethodDescriptorType):
+            return not modifies_known_mutable(obj.__objclass__, obj.__name__)
 
         return True
 
